@@ -203,6 +203,7 @@ def run(ctx: Ctx) -> None:
     ctx.rule("R17.1", "every quality appended by parse_accept_header is 1 (no q parameter) or float() of a text accepted by a dominating pattern test whose language is plain ASCII decimals, and is dropped on every path exactly when outside [0,1]")
     ctx.rule("R17.2", "Accept.best_match replaces its choice exactly when a range matched, quality > 0 and (quality > best, or equal quality and greater specificity); state moves with the choice; LanguageAccept stages its fallbacks through it with q kept")
     ctx.rule("R17.3", "the Accept list is built by one stable sort, specificity major, quality minor, client order on ties; lookups return the first matching range in list order; _specificity ranks wildcards lowest and never ranks a range at or above one whose matched offers are a strict subset of its own")
+    ctx.rule("R17.6", "LanguageAccept.best_match never returns an offer that the client refuses: an offer whose most specific matching range (exact match under the class's own normaliser) has q=0 does not come back through a primary-tag fallback stage; judged by following the function on refusal samples with every negotiation it starts answered from the selection clause R17.2")
     ctx.rule("R17.4", "every _value_matches accepts its family's wildcard range(s) and compares offer and range under the same normaliser")
     accept, fam = _family(ctx)
     ctx.floor("R17.1", "Accept classes", len(fam), 4)
@@ -1635,7 +1636,30 @@ class _AcceptObj:
 
 
 _LANG_SELF = [("en-US", 0.3), ("de", 0.7), ("fr_CA", 0.5), ("zh-Hant-TW", 0.9), ("*", 0.1)]
+# (client list as Accept stores it: specificity, then quality, descending; offers)
+_LANG_REFUSALS = (
+    ([("en", 0.5), ("en-US", 0.0)], ["en-US"]),  # comes back through the offers' primary tags
+    ([("en", 0.5), ("en-US", 0.0)], ["en-US", "en-GB"]),  # ... although an acceptable offer shares the tag
+    ([("fr-CA", 0.0), ("*", 0.1)], ["fr-CA"]),  # comes back through the wildcard of the client's primary tags
+    ([("de", 0.8), ("en-US", 0.0)], ["en-US", "de"]),  # nothing to come back: the exact stage decides
+)
 _LANG_OFFERS = (["enm-GB", "en-US", "de"], ["en-US", "enm-GB", "de"], ["de-AT", "deu", "en"], ["en-US", "en_GB", "fr"])
+
+
+def _lang_eq(offer: str, rng: str) -> bool:
+    import re as _re
+
+    return rng == "*" or _re.split(r"[_-]", offer.lower()) == _re.split(r"[_-]", rng.lower())
+
+def _plain_eq(offer: str, rng: str) -> bool:
+    return rng == "*" or offer.lower() == rng.lower()
+
+def _most_specific(ranges: t.Any, eq: t.Callable[[str, str], bool], offer: str) -> tuple[bool, float] | None:
+    best: tuple[bool, float] | None = None
+    for rng, q in ranges:
+        if eq(offer, rng) and (best is None or (rng != "*", q) > best):
+            best = (rng != "*", q)
+    return best
 
 
 def _primary(tag: str) -> str:
@@ -1660,9 +1684,11 @@ def _language_fallbacks(ctx: Ctx, folder: Folder, accept: ClassInfo, fam: list[C
     DEFAULT = _Sent("default")
     fam_fq = {c.fq for c in fam}
 
-    def run(offers: list[str], plan: list[t.Any]) -> tuple[t.Any, list[tuple[t.Any, t.Any, ast.Call]]]:
+    def run(offers: list[str], plan: t.Any, client: list[tuple[str, float]] | None = None) -> tuple[t.Any, list[tuple[t.Any, t.Any, ast.Call]]]:
+        """``plan``: the stage results in order, or a callable (receiver, candidates) -> result that answers them."""
         log: list[tuple[t.Any, t.Any, ast.Call]] = []
         memo: dict[int, t.Any] = {}
+        me = list(_LANG_SELF if client is None else client)
 
         def hook(call: ast.Call, ev: Ev, env: dict, fe_: FuncEval):
             f = call.func
@@ -1684,9 +1710,22 @@ def _language_fallbacks(ctx: Ctx, folder: Folder, accept: ClassInfo, fam: list[C
                 dflt = args[1] if len(args) == 2 else kws.get("default", None)
                 i = len(log)
                 log.append((recv, cand, call))
-                r = plan[i] if i < len(plan) else None
+                r = plan(recv, cand) if callable(plan) else (plan[i] if i < len(plan) else None)
+                if r is UNK:
+                    return UNK
                 memo[id(call)] = dflt if r is None else r
                 return memo[id(call)]
+            if isinstance(f, ast.Attribute) and isinstance(f.value, ast.Name) and f.value.id == params[0] and f.attr in ("_best_single_match", "quality", "find") and len(call.args) == 1 and not call.keywords:
+                # first-match lookups on the client's list (R17.3 decides that this is what they do)
+                v = ev.val(call.args[0], env)
+                if not isinstance(v, str):
+                    return UNK
+                hit = next(((i, r, q) for i, (r, q) in enumerate(me) if _lang_eq(v, r)), None)
+                if f.attr == "_best_single_match":
+                    return None if hit is None else (hit[1], hit[2])
+                if f.attr == "quality":
+                    return 0 if hit is None else hit[2]
+                return -1 if hit is None else hit[0]
             d = dotted(f)
             if d and not call.keywords and len(call.args) <= 1:
                 fq = repo.resolve(fi.module, d)
@@ -1696,7 +1735,7 @@ def _language_fallbacks(ctx: Ctx, folder: Folder, accept: ClassInfo, fam: list[C
                     return UNK if items is UNK else _AcceptObj(k, items)
             return NotImplemented
 
-        fe_ = FuncEval(repo, folder, fi, params={"self": list(_LANG_SELF), offers_p: list(offers), default_p: DEFAULT}, call_hook=hook)
+        fe_ = FuncEval(repo, folder, fi, params={"self": me, offers_p: list(offers), default_p: DEFAULT}, call_hook=hook)
         res = fe_.concrete()
         if res is None or res[0] != "return" or res[1] is UNK:
             what = "raises" if res is not None and res[0] == "raise" else "cannot be followed statement by statement"
@@ -1760,6 +1799,51 @@ def _language_fallbacks(ctx: Ctx, folder: Folder, accept: ClassInfo, fam: list[C
             got, log = run(offers, [None, None, res])
             ctx.ob("R17.2", f"the offer returned for the negotiated primary tag {res!r} among {offers} is the first offer carrying that tag", got == want,
                    f"stages 1 and 2 find nothing, stage 3 selects {res!r}: returns {got!r}" + ("" if got == want else f", expected {want!r}" + (": an offer that no client range matched" if isinstance(got, str) and _primary(got) != res else "")), fi, fi.node, f"primary-tag result {res} mapped back among {','.join(offers)}")
+
+    # R17.6: a refused offer does not come back through a fallback.  Every negotiation the function starts is answered
+    # by the selection clause itself (highest q > 0 of the most specific matching range, ties to the earlier offer):
+    # on super() with the class's own matcher (tags equal after lower-casing and splitting at '-' / '_'), on an Accept
+    # object it built with the base matcher (equal ignoring case, or '*').
+    def negotiate(client: list[tuple[str, float]]) -> t.Callable[[t.Any, t.Any], t.Any]:
+        def answer(recv: t.Any, cand: t.Any) -> t.Any:
+            if recv == "own":
+                ranges, eq = client, _lang_eq
+            elif isinstance(recv, _AcceptObj) and isinstance(recv.items, (list, tuple)) and recv.klass.fq in (accept.fq, la.fq):
+                ranges, eq = [tuple(x) if isinstance(x, (list, tuple)) else x for x in recv.items], (_plain_eq if recv.klass.fq == accept.fq else _lang_eq)
+            else:
+                return UNK
+            if isinstance(cand, dict):
+                cand = list(cand)
+            if not isinstance(cand, (list, tuple)) or not all(isinstance(c, str) for c in cand) or not all(isinstance(x, tuple) and len(x) == 2 and isinstance(x[0], str) and isinstance(x[1], (int, float)) for x in ranges):
+                return UNK
+            choice, key = None, None
+            for c in cand:
+                m = _most_specific(ranges, eq, c)
+                if m is not None and m[1] > 0 and (key is None or (m[1], m[0]) > key):
+                    choice, key = c, (m[1], m[0])
+            return choice
+
+        return answer
+
+    for n in walk_no_nested(fi.node):
+        on_self = (isinstance(n, ast.Compare) and any(isinstance(o, (ast.In, ast.NotIn)) for o in n.ops) and any(isinstance(c, ast.Name) and c.id == params[0] for c in n.comparators)) or \
+                  (isinstance(n, ast.Subscript) and isinstance(n.value, ast.Name) and n.value.id == params[0])
+        if on_self:
+            raise AnalysisError(f"LanguageAccept.best_match: `{norm(n)}` looks an offer up through the list's own membership / item protocol, which the sample interpretation does not model (R17.6)")
+    for client, offers in _LANG_REFUSALS:
+        try:
+            got, log = run(offers, negotiate(client), client)
+        except AnalysisError:
+            if bad:
+                # the staging protocol is already reported as broken (R17.2): nothing further is claimed about this sample
+                continue
+            raise
+        refused = [o for o in offers if (_most_specific(client, _lang_eq, o) or (True, 1.0))[1] == 0]
+        ok = got is DEFAULT or (isinstance(got, str) and got in offers and got not in refused)
+        hdr = ", ".join(f"{r};q={q:g}" for r, q in client)
+        ctx.ob("R17.6", f"for `{hdr}` and offers {offers} the result is not a refused offer ({refused} have q=0 as their most specific range)", ok,
+               f"returns {got!r}" + ("" if ok else f" after {len(log)} negotiation(s): the fallback stages negotiate primary tags and lose the exact refusal"), fi, fi.node, f"refused offer returned for {hdr} among {','.join(offers)}")
+    ctx.floor("R17.6", "refusal samples followed through LanguageAccept.best_match", len(_LANG_REFUSALS), 3)
 
 
 # =====================================================================
